@@ -2,3 +2,473 @@
 From BVA Require Import Base.Prelude Base.Result Base.Words Base.Limbs.
 From BVA Require Import Model.Core Model.Ops Model.Arith Model.Conv Model.Auto Spec.Spec Proofs.Common.
 From Coq Require Import ZifyBool ZifyN ZifyNat.
+
+(* copy_range: the slice s..e of a vector, as a fresh vector.
+
+   Proof plan: the storage before masking has, as word j (j < K = cfbl (e - s)), the w source bits
+   starting at bit s + w * j, and zero words above; masking the top word then keeps exactly the low
+   e - s bits.  Everything is stated bit-wise and concluded with N.bits_inj. *)
+
+(* ------------------------------------------------------------------ width-independent helpers *)
+
+Lemma land_lt_l a b n : a < 2 ^ n -> N.land a b < 2 ^ n.
+Proof.
+  intros H. apply lt_pow2_of_bits. intros i Hi. rewrite N.land_spec.
+  rewrite (testbit_high a n i) by assumption. reflexivity.
+Qed.
+
+Lemma lor_lt a b n : a < 2 ^ n -> b < 2 ^ n -> N.lor a b < 2 ^ n.
+Proof.
+  intros Ha Hb. apply lt_pow2_of_bits. intros i Hi. rewrite N.lor_spec.
+  rewrite (testbit_high a n i), (testbit_high b n i) by assumption. reflexivity.
+Qed.
+
+Lemma nth_skipn_nat (d : list N) o j : nth j (skipn o d) 0 = nth (o + j) d 0.
+Proof.
+  revert d. induction o as [|o IH]; intros d; [reflexivity|].
+  destruct d as [|x r]; cbn [skipn Nat.add nth]; [destruct j; reflexivity|apply IH].
+Qed.
+
+Lemma nth_firstn_nat (d : list N) k j :
+  nth j (firstn k d) 0 = if (j <? k)%nat then nth j d 0 else 0.
+Proof.
+  revert d j. induction k as [|k IH]; intros d j.
+  - cbn [firstn]. destruct j; reflexivity.
+  - destruct d as [|x r]; cbn [firstn].
+    + destruct j; cbn [nth]; destruct (_ <? _)%nat; reflexivity.
+    + destruct j as [|j]; cbn [nth]; [reflexivity|]. rewrite IH. reflexivity.
+Qed.
+
+Lemma getw_skipn d o j : getw (skipn (N.to_nat o) d) j = getw d (j + o).
+Proof.
+  unfold getw. rewrite nth_skipn_nat. f_equal. lia.
+Qed.
+
+Lemma getw_firstn d k j : getw (firstn (N.to_nat k) d) j = if j <? k then getw d j else 0.
+Proof.
+  unfold getw. rewrite nth_firstn_nat.
+  destruct (Nat.ltb_spec (N.to_nat j) (N.to_nat k)); destruct (N.ltb_spec j k); try reflexivity; lia.
+Qed.
+
+Lemma lenw_firstn d k : lenw (firstn (N.to_nat k) d) = N.min k (lenw d).
+Proof. unfold lenw. rewrite firstn_length. lia. Qed.
+
+Lemma lenw_skipn d o : lenw (skipn (N.to_nat o) d) = lenw d - o.
+Proof. unfold lenw. rewrite skipn_length. lia. Qed.
+
+Lemma getw_app d1 d2 j :
+  getw (d1 ++ d2) j = if j <? lenw d1 then getw d1 j else getw d2 (j - lenw d1).
+Proof.
+  unfold getw, lenw. destruct (N.ltb_spec j (N.of_nat (length d1))).
+  - apply app_nth1. lia.
+  - rewrite app_nth2 by lia. f_equal. lia.
+Qed.
+
+Lemma getw_map_nrange (g : N -> N) k j : getw (map g (nrange k)) j = if j <? k then g j else 0.
+Proof.
+  destruct (N.ltb_spec j k) as [H|H].
+  - unfold getw. rewrite (nth_indep _ 0 (g 0)) by (rewrite map_length, nrange_length; lia).
+    rewrite map_nth. f_equal. apply getw_nrange. assumption.
+  - apply getw_high. unfold lenw. rewrite map_length, nrange_length. lia.
+Qed.
+
+Lemma lenw_map_nrange (g : N -> N) k : lenw (map g (nrange k)) = k.
+Proof. unfold lenw. rewrite map_length, nrange_length. lia. Qed.
+
+Lemma omap_list_ok {A B} (f : A -> outcome B) (g : A -> B) l :
+  (forall a, In a l -> f a = Ok (g a)) -> omap_list f l = Ok (map g l).
+Proof.
+  induction l as [|a r IH]; intros H; [reflexivity|].
+  cbn [omap_list map]. rewrite (H a) by (left; reflexivity). cbn [bind].
+  rewrite IH by (intros; apply H; right; assumption). reflexivity.
+Qed.
+
+Lemma getw_upd_last f d j :
+  getw (upd_last f d) j = if (j =? lenw d - 1) && (0 <? lenw d) then f (getw d j) else getw d j.
+Proof.
+  revert j. induction d as [|x r IH]; intros j.
+  - cbn [upd_last]. rewrite lenw_nil. rewrite andb_false_r. reflexivity.
+  - destruct r as [|y r'].
+    + cbn [upd_last]. rewrite lenw_cons, lenw_nil.
+      destruct (N.eqb_spec j (0 + 1 - 1)) as [->|Hj]; [reflexivity|].
+      cbn [andb]. rewrite !getw_cons_S, !getw_nil by lia. reflexivity.
+    + change (upd_last f (x :: y :: r')) with (x :: upd_last f (y :: r')).
+      rewrite (lenw_cons x). rewrite (lenw_cons y) in *.
+      destruct (N.eq_dec j 0) as [->|Hj].
+      * rewrite !getw_cons_0.
+        destruct (N.eqb_spec 0 (lenw r' + 1 + 1 - 1)); [lia|reflexivity].
+      * rewrite !(getw_cons_S x) by lia. rewrite IH.
+        assert (0 <? lenw r' + 1 = true) as -> by (apply N.ltb_lt; lia).
+        assert (0 <? lenw r' + 1 + 1 = true) as -> by (apply N.ltb_lt; lia).
+        destruct (N.eqb_spec (j - 1) (lenw r' + 1 - 1)); destruct (N.eqb_spec j (lenw r' + 1 + 1 - 1));
+          try lia; reflexivity.
+Qed.
+
+Lemma lenw_upd_last f d : lenw (upd_last f d) = lenw d.
+Proof.
+  induction d as [|x r IH]; [reflexivity|].
+  destruct r as [|y r']; [reflexivity|].
+  change (upd_last f (x :: y :: r')) with (x :: upd_last f (y :: r')).
+  rewrite !(lenw_cons x), IH. reflexivity.
+Qed.
+
+Lemma upd_last_upd_at f d : upd_last f d = upd_at d (lenw d - 1) f.
+Proof.
+  apply list_ext_getw.
+  - rewrite lenw_upd_last, lenw_upd_at. reflexivity.
+  - intros j _. rewrite getw_upd_last, getw_upd_at.
+    destruct (N.eqb_spec j (lenw d - 1)) as [->|Hj].
+    + rewrite N.eqb_refl.
+      destruct (N.ltb_spec 0 (lenw d)); destruct (N.ltb_spec (lenw d - 1) (lenw d)); try reflexivity; lia.
+    + destruct (N.eqb_spec (lenw d - 1) j); [lia|reflexivity].
+Qed.
+
+Lemma cfbl_d_eq L : cfbl_d L = cfbl_f 64 L.
+Proof.
+  unfold cfbl_d, cfbyl_d, cfbl_f.
+  pose proof (N.div_mod' L 8) as E1. pose proof (N.mod_lt L 8).
+  pose proof (N.div_mod' (L + 7) 8) as E2. pose proof (N.mod_lt (L + 7) 8).
+  pose proof (N.div_mod' ((L + 7) / 8 + 8 - 1) 8) as E3. pose proof (N.mod_lt ((L + 7) / 8 + 8 - 1) 8).
+  pose proof (N.div_mod' (L + 64 - 1) 64) as E4. pose proof (N.mod_lt (L + 64 - 1) 64).
+  lia.
+Qed.
+
+(* ------------------------------------------------------------------ width-generic core *)
+
+Section W.
+Variable w : N.
+Hypothesis Hw : 0 < w.
+
+Lemma cfbl_f_eq L : cfbl_f w L = L / w + (if L mod w =? 0 then 0 else 1).
+Proof.
+  unfold cfbl_f. pose proof (div_mod_eq L w) as E. pose proof (mod_lt' L w Hw) as Hm.
+  destruct (N.eqb_spec (L mod w) 0) as [H0|H0]; symmetry.
+  - apply (N.div_unique _ w _ (w - 1)); lia.
+  - apply (N.div_unique _ w _ (L mod w - 1)); lia.
+Qed.
+
+Lemma lastbits_spec L : 0 < L -> lastbits w L = if L mod w =? 0 then w else L mod w.
+Proof.
+  intros HL. unfold lastbits, wsub1.
+  destruct (N.eqb_spec L 0) as [|_]; [lia|].
+  pose proof (div_mod_eq L w) as E. pose proof (mod_lt' L w Hw) as Hm.
+  destruct (N.eqb_spec (L mod w) 0) as [H0|H0].
+  - assert (L / w <> 0) as Hq by (intro Z; rewrite Z in E; lia).
+    replace (L / w) with (L / w - 1 + 1) in E by lia. rewrite N.mul_add_distr_l in E.
+    rewrite <- (N.mod_unique (L - 1) w (L / w - 1) (w - 1)); lia.
+  - rewrite <- (N.mod_unique (L - 1) w (L / w) (L mod w - 1)); lia.
+Qed.
+
+(* which bits survive: word j (below K) is kept, except that the word at index p is masked *)
+Lemma mask_arith L p n j b :
+  b < w -> cfbl_f w L <= n -> (L mod w <> 0 -> p = L / w) ->
+  (j <? cfbl_f w L) && (negb ((p =? j) && (p <? n)) || (b <? lastbits w L)) = (w * j + b <? L).
+Proof.
+  intros Hb HK Hp. rewrite cfbl_f_eq in *.
+  pose proof (div_mod_eq L w) as E. pose proof (mod_lt' L w Hw) as Hm.
+  destruct (N.eqb_spec (L mod w) 0) as [H0|H0].
+  - destruct (N.eq_dec L 0) as [HL|HL].
+    + assert (L / w = 0) as -> by (rewrite HL; apply N.div_0_l; lia).
+      destruct (N.ltb_spec j (0 + 0)); [lia|]. cbn [andb].
+      destruct (N.ltb_spec (w * j + b) L); [lia|reflexivity].
+    + rewrite lastbits_spec by lia. apply N.eqb_eq in H0. rewrite H0. apply N.eqb_eq in H0.
+      assert (b <? w = true) as -> by (apply N.ltb_lt; assumption).
+      rewrite orb_true_r, andb_true_r.
+      destruct (N.ltb_spec j (L / w + 0)); destruct (N.ltb_spec (w * j + b) L); try reflexivity; nia.
+  - specialize (Hp H0). subst p. rewrite lastbits_spec by lia.
+    destruct (N.eqb_spec (L mod w) 0) as [|_]; [contradiction|].
+    assert (L / w <? n = true) as -> by (apply N.ltb_lt; lia). rewrite andb_true_r.
+    destruct (N.eqb_spec (L / w) j) as [<-|Hj]; cbn [negb orb].
+    + assert (L / w <? L / w + 1 = true) as -> by (apply N.ltb_lt; lia). cbn [andb].
+      destruct (N.ltb_spec (L mod w) (L mod w)); [lia|].
+      destruct (N.ltb_spec b (L mod w)); destruct (N.ltb_spec (w * (L / w) + b) L); try reflexivity; lia.
+    + rewrite andb_true_r.
+      destruct (N.ltb_spec j (L / w + 1)); destruct (N.ltb_spec (w * j + b) L); try reflexivity; nia.
+Qed.
+
+Lemma masked_bits (B : N -> bool) L p d :
+  words_ok w d -> cfbl_f w L <= lenw d -> (L mod w <> 0 -> p = L / w) ->
+  (forall j b, b < w -> N.testbit (getw d j) b = (j <? cfbl_f w L) && B (w * j + b)) ->
+  words_ok w (upd_at d p (fun l => N.land l (maskw w (lastbits w L)))) /\
+  forall i, N.testbit (raw w (upd_at d p (fun l => N.land l (maskw w (lastbits w L))))) i =
+            (i <? L) && B i.
+Proof.
+  intros Hd HK Hp HB.
+  assert (words_ok w (upd_at d p (fun l => N.land l (maskw w (lastbits w L))))) as Hd'.
+  { apply words_ok_upd_at; [assumption|]. apply land_lt_l, getw_ok. assumption. }
+  split; [assumption|]. intro i.
+  rewrite raw_testbit by assumption. rewrite getw_upd_at.
+  pose proof (div_mod_eq i w) as Ei. pose proof (mod_lt' i w Hw) as Hb.
+  transitivity (N.testbit (getw d (i / w)) (i mod w) &&
+                (negb ((p =? i / w) && (p <? lenw d)) || (i mod w <? lastbits w L))).
+  - destruct ((p =? i / w) && (p <? lenw d)) eqn:C.
+    + apply andb_true_iff in C. destruct C as [C _]. apply N.eqb_eq in C. subst p.
+      rewrite N.land_spec, maskw_testbit.
+      assert (i mod w <? w = true) as -> by (apply N.ltb_lt; assumption).
+      cbn [negb orb]. rewrite andb_true_r. reflexivity.
+    + cbn [negb orb]. rewrite andb_true_r. reflexivity.
+  - rewrite HB by assumption.
+    rewrite <- andb_assoc, (andb_comm (B _)), andb_assoc.
+    rewrite mask_arith by assumption. rewrite <- Ei. reflexivity.
+Qed.
+
+(* one word of the shifted copy *)
+Lemma slide_word_bits src off sl k b :
+  words_ok w src -> 0 < sl -> sl < w -> b < w ->
+  N.testbit (N.lor (shrw (getw src (k + off)) sl) (shlw w (getw src (k + off + 1)) (w - sl))) b =
+  N.testbit (raw w src) (w * off + sl + (w * k + b)).
+Proof.
+  intros Hs H0 Hsl Hb.
+  rewrite N.lor_spec, shrw_testbit, shlw_testbit, raw_testbit by assumption.
+  assert (b <? w = true) as -> by (apply N.ltb_lt; assumption). cbn [andb].
+  destruct (N.lt_ge_cases (b + sl) w) as [Hlt|Hge].
+  - destruct (divmod_unique (w * off + sl + (w * k + b)) w (k + off) (b + sl) Hw) as [-> ->]; [lia|assumption|].
+    assert (w - sl <=? b = false) as -> by (apply N.leb_gt; lia). cbn [andb]. apply orb_false_r.
+  - destruct (divmod_unique (w * off + sl + (w * k + b)) w (k + off + 1) (b + sl - w) Hw) as [-> ->]; [lia|lia|].
+    rewrite (testbit_high (getw src (k + off)) w (b + sl)) by (try apply getw_ok; assumption).
+    assert (w - sl <=? b = true) as -> by (apply N.leb_le; lia). cbn [andb orb].
+    f_equal. lia.
+Qed.
+
+Lemma slide_word_lt src off sl k :
+  words_ok w src ->
+  N.lor (shrw (getw src (k + off)) sl) (shlw w (getw src (k + off + 1)) (w - sl)) < 2 ^ w.
+Proof.
+  intros Hs. apply lor_lt; [apply shrw_lt, getw_ok; assumption|apply shlw_lt].
+Qed.
+
+Lemma plain_word_bits src off k b :
+  words_ok w src -> b < w ->
+  N.testbit (getw src (k + off)) b = N.testbit (raw w src) (w * off + 0 + (w * k + b)).
+Proof.
+  intros Hs Hb. rewrite raw_testbit by assumption.
+  destruct (divmod_unique (w * off + 0 + (w * k + b)) w (k + off) b Hw) as [-> ->]; [lia|assumption|].
+  reflexivity.
+Qed.
+
+(* the accesses of the copy loop are in range *)
+Lemma copy_in_range s L n i :
+  s + L <= w * n -> i < cfbl_f w L -> i + s / w < n.
+Proof.
+  intros Hn Hi. rewrite cfbl_f_eq in Hi.
+  pose proof (div_mod_eq L w) as E. pose proof (mod_lt' L w Hw) as Hm.
+  pose proof (div_mod_eq s w) as Es. pose proof (mod_lt' s w Hw) as Hsm.
+  apply (N.mul_lt_mono_pos_l w); [assumption|].
+  destruct (N.eqb_spec (L mod w) 0); nia.
+Qed.
+
+End W.
+
+Lemma cfbl_f_ge w L : 0 < w -> L <= w * cfbl_f w L.
+Proof. intros Hw. apply (ceil_div_spec L w Hw). unfold cfbl_f. lia. Qed.
+
+Lemma cfbl_f_le w L n : 0 < w -> L <= w * n -> cfbl_f w L <= n.
+Proof. intros Hw H. apply (ceil_div_spec L w Hw). assumption. Qed.
+
+Lemma cfbl_off_le w s L n : 0 < w -> s + L <= w * n -> cfbl_f w L + s / w <= n.
+Proof.
+  intros Hw H. destruct (N.eq_dec (cfbl_f w L) 0) as [E|E].
+  - rewrite E. pose proof (div_mod_eq s w).
+    apply (N.mul_le_mono_pos_l _ _ w); [assumption|]. lia.
+  - pose proof (copy_in_range w Hw s L n (cfbl_f w L - 1) H). lia.
+Qed.
+
+Lemma cfbl_f_last w L : 0 < w -> L mod w <> 0 -> cfbl_f w L - 1 = L / w.
+Proof.
+  intros Hw H. rewrite cfbl_f_eq by assumption.
+  destruct (N.eqb_spec (L mod w) 0); [contradiction|apply N.add_sub].
+Qed.
+
+(* ------------------------------------------------------------------ debug assertions *)
+
+Lemma copy_range_assert_false v s e :
+  wl v < s \/ wl v < e -> (s <=? wl v) && (e <=? wl v) = false.
+Proof.
+  intros H. destruct (N.leb_spec s (wl v)); destruct (N.leb_spec e (wl v)); try reflexivity; lia.
+Qed.
+
+Lemma copy_range_assert_ok P v s e :
+  s <= e -> e <= wl v -> dassert P ((s <=? wl v) && (e <=? wl v)) = Ok tt.
+Proof.
+  intros H1 H2.
+  assert ((s <=? wl v) && (e <=? wl v) = true) as ->
+    by (apply andb_true_iff; split; apply N.leb_le; lia).
+  destruct P; reflexivity.
+Qed.
+
+Lemma f_copy_range_debug_oob w v s e :
+  wl v < s \/ wl v < e -> f_copy_range Debug w v s e = Panic.
+Proof.
+  intros H. unfold f_copy_range. rewrite copy_range_assert_false by assumption. reflexivity.
+Qed.
+
+Lemma d_copy_range_debug_oob v s e :
+  wl v < s \/ wl v < e -> d_copy_range Debug v s e = Panic.
+Proof.
+  intros H. unfold d_copy_range. rewrite copy_range_assert_false by assumption. reflexivity.
+Qed.
+
+(* ------------------------------------------------------------------ Bvd *)
+
+Definition d_word (src : list N) (s i : N) : N :=
+  N.lor (shrw (getw src (i + s / 64)) (s mod 64))
+        (if 64 - s mod 64 <? 64 then shlw 64 (getw src (i + s / 64 + 1)) (64 - s mod 64) else 0).
+
+Lemma d_word_lt src s i : words_ok 64 src -> d_word src s i < 2 ^ 64.
+Proof.
+  intros Hs. unfold d_word. apply lor_lt; [apply shrw_lt, getw_ok; assumption|].
+  destruct (_ <? _); [apply shlw_lt|apply pow2_pos].
+Qed.
+
+Lemma d_word_bits src s i b :
+  words_ok 64 src -> b < 64 ->
+  N.testbit (d_word src s i) b = N.testbit (raw 64 src) (s + (64 * i + b)).
+Proof.
+  intros Hs Hb. unfold d_word.
+  pose proof (div_mod_eq s 64) as Es. pose proof (mod_lt' s 64 ltac:(lia)) as Hm.
+  destruct (N.eq_dec (s mod 64) 0) as [E0|E0].
+  - rewrite E0 in *. change (64 - 0 <? 64) with false. cbv iota.
+    unfold shrw. rewrite N.shiftr_0_r, N.lor_0_r.
+    rewrite (plain_word_bits 64) by (assumption || lia). f_equal. lia.
+  - assert (64 - s mod 64 <? 64 = true) as -> by (apply N.ltb_lt; lia).
+    rewrite (slide_word_bits 64) by (assumption || lia). f_equal. lia.
+Qed.
+
+Lemma d_copy_range_spec P v s e :
+  canon_wv 64 v -> s <= e -> e <= wl v ->
+  exists r, d_copy_range P v s e = Ok r /\ canon_wv 64 r /\ wl r = e - s /\
+            lenw (wd r) = cfbl_d (e - s) /\
+            raw 64 (wd r) = (raw 64 (wd v) / 2 ^ s) mod 2 ^ (e - s).
+Proof.
+  intros (Hok & Hcap & Hlt) Hse He.
+  assert (0 < 64) as H64 by lia.
+  unfold d_copy_range. cbv zeta. rewrite copy_range_assert_ok by assumption. cbn [bind].
+  replace (e - N.min s e) with (e - s) by lia.
+  unfold W64. rewrite cfbl_d_eq.
+  set (L := e - s). set (K := cfbl_f 64 L).
+  rewrite (omap_list_ok _ (d_word (wd v) s)).
+  2:{ intros i Hi. apply In_nrange in Hi.
+      rewrite geto_ok by (apply (copy_in_range 64 H64 s L); [lia|assumption]).
+      reflexivity. }
+  cbn [bind]. rewrite upd_last_upd_at.
+  set (d := map (d_word (wd v) s) (nrange K)).
+  assert (lenw d = K) as Hlen by apply lenw_map_nrange.
+  assert (words_ok 64 d) as Hd.
+  { apply words_ok_getw. intros i _. unfold d. rewrite getw_map_nrange.
+    destruct (i <? K); [apply d_word_lt; assumption|apply pow2_pos]. }
+  destruct (masked_bits 64 H64 (fun x => N.testbit (raw 64 (wd v)) (s + x)) L (lenw d - 1) d)
+    as [Hd' Hbits].
+  - assumption.
+  - fold K. lia.
+  - intros Hm. rewrite Hlen. apply cfbl_f_last; assumption.
+  - intros j b Hb. fold K. unfold d. rewrite getw_map_nrange.
+    destruct (j <? K); [apply d_word_bits; assumption|apply N.bits_0].
+  - eexists. split; [reflexivity|]. cbn [wd wl].
+    split; [|split; [reflexivity|split]].
+    + apply canon_of_bits.
+      * assumption.
+      * rewrite lenw_upd_at, Hlen. apply cfbl_f_ge. assumption.
+      * intros i Hi. rewrite Hbits. assert (i <? L = false) as -> by (apply N.ltb_ge; assumption). reflexivity.
+    + rewrite lenw_upd_at. assumption.
+    + apply N.bits_inj. intro i.
+      rewrite Hbits, mod_pow2_testbit, div_pow2_testbit. f_equal. f_equal. lia.
+Qed.
+
+(* ------------------------------------------------------------------ Bvf *)
+
+Lemma fold_copy_ok src off (G : N -> N -> N) n k :
+  k <= n -> (forall i, i < k -> i + off < lenw src) ->
+  exists d,
+    fold_left (fun acc i => let! d := acc in let! x := geto src (i + off) in seto d i (G i x))
+              (nrange k) (Ok (zerosw n)) = Ok d /\
+    lenw d = n /\ forall j, getw d j = if j <? k then G j (getw src (j + off)) else 0.
+Proof.
+  induction k as [|k IH] using N.peano_ind; intros Hk Hr.
+  - exists (zerosw n). rewrite nrange_0. cbn [fold_left].
+    split; [reflexivity|]. split; [apply lenw_zerosw|].
+    intros j. rewrite getw_zerosw. destruct (N.ltb_spec j 0); [lia|reflexivity].
+  - destruct IH as (d & Hd & Hl & Hg); [lia|intros; apply Hr; lia|].
+    rewrite <- N.add_1_r, nrange_succ, fold_left_app, Hd. cbn [fold_left bind].
+    rewrite geto_ok by (apply Hr; lia). cbn [bind]. rewrite seto_ok by lia.
+    eexists. split; [reflexivity|]. split; [rewrite lenw_setw; assumption|].
+    intros j. rewrite getw_setw, Hg, Hl.
+    destruct (N.eqb_spec k j) as [<-|Hj].
+    + assert (k <? n = true) as -> by (apply N.ltb_lt; lia).
+      assert (k <? k + 1 = true) as -> by (apply N.ltb_lt; lia). reflexivity.
+    + cbn [andb].
+      destruct (N.ltb_spec j k); destruct (N.ltb_spec j (k + 1)); try reflexivity; lia.
+Qed.
+
+Lemma f_copy_range_spec P w v s e :
+  0 < w -> canon_wv w v -> s <= e -> e <= wl v ->
+  exists r, f_copy_range P w v s e = Ok r /\ canon_wv w r /\ wl r = e - s /\
+            lenw (wd r) = lenw (wd v) /\
+            raw w (wd r) = (raw w (wd v) / 2 ^ s) mod 2 ^ (e - s).
+Proof.
+  intros Hw (Hok & Hcap & Hlt) Hse He.
+  unfold f_copy_range. cbv zeta. rewrite copy_range_assert_ok by assumption. cbn [bind].
+  replace (e - N.min s e) with (e - s) by lia.
+  set (L := e - s). set (K := cfbl_f w L). set (n := lenw (wd v)).
+  pose proof (div_mod_eq s w) as Es. pose proof (mod_lt' s w Hw) as Hsm.
+  assert (s + L <= w * n) as HsL by (unfold L, n; lia).
+  assert (K <= n) as HKn by (apply cfbl_f_le; [assumption|lia]).
+  assert (K + s / w <= n) as HKo by (apply cfbl_off_le; assumption).
+  (* the storage before masking *)
+  assert (exists d,
+    (if 0 <? s mod w
+     then fold_left (fun acc i =>
+                       let! d := acc in
+                       let! x := geto (wd v) (i + s / w) in
+                       seto d i (N.lor (shrw x (s mod w))
+                                       (shlw w (getw (wd v) (i + s / w + 1)) (w - s mod w))))
+                    (nrange K) (Ok (zerosw n))
+     else if (K <=? n) && (K + s / w <=? n)
+          then Ok (firstn (N.to_nat K) (skipn (N.to_nat (s / w)) (wd v)) ++ zerosw (n - K))
+          else Panic) = Ok d /\
+    lenw d = n /\ words_ok w d /\
+    forall j b, b < w ->
+      N.testbit (getw d j) b = (j <? K) && N.testbit (raw w (wd v)) (s + (w * j + b)))
+    as (d & -> & Hlen & Hd & HB).
+  { destruct (N.ltb_spec 0 (s mod w)) as [Hsl|Hsl].
+    - destruct (fold_copy_ok (wd v) (s / w)
+                  (fun i x => N.lor (shrw x (s mod w))
+                                    (shlw w (getw (wd v) (i + s / w + 1)) (w - s mod w))) n K)
+        as (d & Hfold & Hlen & Hg).
+      + assumption.
+      + intros i Hi. fold n. lia.
+      + cbv beta in Hfold, Hg. exists d. split; [exact Hfold|]. split; [assumption|]. split.
+        * apply words_ok_getw. intros j _. rewrite Hg.
+          destruct (j <? K); [apply slide_word_lt; assumption|apply pow2_pos].
+        * intros j b Hb. rewrite Hg. destruct (j <? K); [|apply N.bits_0]. cbn [andb].
+          rewrite slide_word_bits by assumption. f_equal. lia.
+    - assert (K <=? n = true) as -> by (apply N.leb_le; assumption).
+      assert (K + s / w <=? n = true) as -> by (apply N.leb_le; assumption). cbn [andb].
+      eexists. split; [reflexivity|].
+      assert (lenw (firstn (N.to_nat K) (skipn (N.to_nat (s / w)) (wd v))) = K) as Hl1.
+      { rewrite lenw_firstn, lenw_skipn. fold n. lia. }
+      assert (forall j, getw (firstn (N.to_nat K) (skipn (N.to_nat (s / w)) (wd v)) ++ zerosw (n - K)) j =
+                        if j <? K then getw (wd v) (j + s / w) else 0) as Hg.
+      { intros j. rewrite getw_app, Hl1, getw_firstn, getw_skipn, getw_zerosw.
+        destruct (j <? K); reflexivity. }
+      split; [rewrite (lenw_app w), Hl1, lenw_zerosw; lia|]. split.
+      + apply words_ok_getw. intros j _. rewrite Hg.
+        destruct (j <? K); [apply getw_ok; assumption|apply pow2_pos].
+      + intros j b Hb. rewrite Hg. destruct (j <? K); [|apply N.bits_0]. cbn [andb].
+        rewrite (plain_word_bits w Hw) by assumption. f_equal. lia. }
+  cbn [bind].
+  destruct (masked_bits w Hw (fun x => N.testbit (raw w (wd v)) (s + x)) L (L / w) d)
+    as [Hd' Hbits].
+  - assumption.
+  - fold K. lia.
+  - reflexivity.
+  - exact HB.
+  - eexists. split; [reflexivity|]. cbn [wd wl].
+    split; [|split; [reflexivity|split]].
+    + apply canon_of_bits.
+      * assumption.
+      * rewrite lenw_upd_at, Hlen. lia.
+      * intros i Hi. rewrite Hbits. assert (i <? L = false) as -> by (apply N.ltb_ge; assumption). reflexivity.
+    + rewrite lenw_upd_at. assumption.
+    + apply N.bits_inj. intro i.
+      rewrite Hbits, mod_pow2_testbit, div_pow2_testbit. f_equal. f_equal. lia.
+Qed.
